@@ -140,3 +140,40 @@ class Check:
         print('%s tier=%s: %d obligations, %d held, %d known findings, %d violations, %d functions, %.1fs' % (
             self.pid, self.tier, n_obl, n_ok, len(kf), len(new), len(self.functions), time.time() - self.t0))
         return 1 if new else 0
+
+
+class SubCheck:
+    """Run another property's rule module inside this check, importing only the selected rules under a prefixed id.
+    (Several properties share structural clauses — e.g. C01's slot agreement is C07.R3 — and must not drift apart.)"""
+
+    def __init__(self, chk, prefix, only):
+        self.chk, self.prefix, self.only = chk, prefix, set(only)
+        self.assumptions, self.trusted, self.notes, self.extra = [], [], [], {}
+        self.explanation = ''
+        self.call_sites = 0
+        self.tier = chk.tier
+
+    def rule(self, rid, desc, floor=1):
+        if rid in self.only:
+            self.chk.rule(self.prefix + rid, '[%s] %s' % (self.prefix.rstrip('.'), desc), floor=floor)
+
+    def ok(self, rid, instance, detail='', nontrivial=True):
+        if rid in self.only:
+            self.chk.ok(self.prefix + rid, instance, detail, nontrivial)
+
+    def fail(self, rid, instance, where, what, detail=None, key=None):
+        if rid in self.only:
+            k = key or '%s|%s' % (rid, instance)
+            self.chk.fail(self.prefix + rid, instance, where, what, detail, key=self.prefix + k)
+
+    def anchor_lost(self, rid, what):
+        self.chk.anchor_lost(self.prefix + rid, what)
+
+    def fn_seen(self, *paths):
+        self.chk.fn_seen(*paths)
+
+
+def run_sub(chk, module, prefix, only):
+    import importlib
+    mod = importlib.import_module('tsa.rules.%s' % module)
+    mod.run(SubCheck(chk, prefix, only), chk.tier)
